@@ -33,7 +33,7 @@ class C03(Spec):
             "every read: single/double byte mutations of valid messages, dropped CR, doubled separators, lone CR, NUL and "
             ">=0x80 bytes, truncation after every separator and inside numbers, overlong/negative/hex/garbage Content-Length "
             "and chunk sizes (7fffffffffffffff, -1, 0x, empty, extension), hostile values for every registered header, Cookie "
-            "and Set-Cookie fed through the real parser (PV cases: compared with the model only as 'no crash, no hang'); each "
+            "and Set-Cookie fed through the real parser, request and status lines whose last token is cut short at the end of a read (lengths around powers of two) (PV cases: compared with the model only as 'no crash, no hang'); each "
             "whole, byte by byte and at cuts next to separators; plus a per-case watchdog. non-trivial = input that is not a "
             "cleanly parsed message; distinct by case line")
     assumptions = ["memory safety inside libc/libstdc++ is observed by sanitizers on the sampled inputs, not proved",
@@ -61,6 +61,17 @@ class C03(Spec):
                 segsets.append([m[:c]])                  # input ending right after a separator / inside a number
             for segs in segsets:
                 cases.append(G.case_line("P", kind, maxsz, segs))
+        # start lines whose last token is cut short right at the end of a read, total lengths around powers of two (the read
+        # buffer is an exactly sized block: a comparison over a fixed width reads past it)
+        for pad in (0, 1, 2, 7, 8, 9, 15, 16, 17, 23, 24, 25, 55, 56, 57, 120):
+            for ver in (b"", b"H", b"HT", b"HTT", b"HTTP", b"HTTP/", b"HTTP/1", b"HTTP/1.", b"HTTP/1.1", b"HTTP/1.12", b"XTTP/1.1"):
+                line = b"GET /" + b"a" * pad + b" " + ver + b"\r\n"
+                cases.append(G.case_line("P", "R", 4096, [line]))
+                cases.append(G.case_line("P", "R", 4096, [line, b"Host: a\r\n\r\n"]))
+            for st in (b"", b"H", b"HTTP/1.", b"HTTP/1.1", b"HTTP/1.1 ", b"HTTP/1.1 2", b"HTTP/1.1 20", b"HTTP/1.1 200", b"HTTP/1.1 200 "):
+                line = st + b"\r\n" if pad == 0 else st + b" " + b"x" * pad + b"\r\n"
+                cases.append(G.case_line("P", "S", 4096, [line]))
+                cases.append(G.case_line("P", "S", 4096, [line, b"Content-Length: 0\r\n\r\n"]))
         # hostile typed-header / cookie values through the real parser
         reps = 1 if tier == "quick" else 4
         for name, vals in HOSTILE_VALUES.items():
